@@ -88,6 +88,23 @@ def generate(r, tier):
             scn["faulted"] = [gen.gen_ticket(r, "pa", aunits, pp), gen.gen_ticket(r, "pb", aunits, pp)]
             scn["pair"] = {"cancel": r.choice([None, None, "pa", "pb"]), "t": r.choice([0.5, 1.5, 2.5]), "order": [r.randint(0, 1) for _ in range(12)], "close": r.choice(["fifo", "lifo", "none"])}
             return scn
+    if engine == "coro" and r.random() < 0.3:
+        # fire-and-forget: a contract or a body starts an async call in a copy of its context (which then holds the marks of
+        # the calls in progress), leaves it suspended, and the pending coroutine is later closed from the spawning context
+        aunits = [u for u in units if u["async"]]
+        if aunits:
+            scn["mode"] = "single"
+            scn["foreign"] = True
+            scn["faulted"] = []
+            for i in range(r.randint(1, 3)):
+                outer = gen.gen_ticket(r, "fo%d" % i, units, dict(profile, p_falsy=0.2))
+                sp = {"spawn": gen.gen_ticket(r, "sp%d" % i, aunits, dict(profile, pause_density=1.0, p_nested=0.2, p_falsy=0.2)), "steps": r.randint(1, 3)}
+                hosts = ["body"] + sorted((outer.get("sites") or {}).keys())
+                h = r.choice(hosts[:1] * 2 + hosts)
+                cfg = outer.setdefault("body", {}) if h == "body" else outer["sites"][h]
+                cfg.setdefault("nested", []).append(sp)
+                scn["faulted"].append(outer)
+            return scn
     if r.random() < 0.7:
         scn["mode"] = "sweep"
         scn["base"] = gen.gen_ticket(r, "b", units, profile)
@@ -103,6 +120,13 @@ def generate(r, tier):
         kinds = ["raise", "bool", "repr"] + (["cancel"] if engine == "loop" else [])
         fp = dict(profile, p_fault=0.85, fault_kinds=kinds, p_nested=0.4)
         scn["faulted"] = [gen.gen_ticket(r, "q%d" % i, units, fp) for i in range(r.randint(2, 6))]
+        if world.get("classes") and r.random() < 0.3:
+            # the class is a proxy whose attribute look-up may fail: ``instance.__class__`` raises at its n-th look-up within a call
+            world["classes"][0]["ga"] = True
+            for td in scn["faulted"]:
+                if td.get("obj") and r.random() < 0.7:
+                    # (not AttributeError: isinstance()/hasattr() swallow it by design, so it need not surface)
+                    td["ga"] = {"n": r.choice([0, 0, 1, 2, 3]), "exc": r.choice([x for x in EXCS if x != "AttributeError"])}
     return scn
 
 
@@ -110,6 +134,14 @@ def generate(r, tier):
 # execution of one faulted sequence + probes
 # -------------------------------------------------------------------------------------------------
 def _poke(run, td, revert):
+    g = td.get("ga")
+    if g and "obj" in td:
+        o = run.world.objects.get(td["obj"])
+        if o is not None:
+            if revert:
+                run.ga_armed.pop(id(o), None)
+            else:
+                run.ga_armed[id(o)] = dict(g)
     p = td.get("poke")
     if not p or "obj" not in td:
         return
@@ -242,6 +274,8 @@ def _run_tickets(engine, world, tickets_faulted, probes, plan=None):
                         run.call(td)
                 finally:
                     _poke(run, td, True)
+            if run.pending:
+                run.close_pending()
             run.ev("probes", None, None, None)
             for td in probes:
                 if run.world.is_async(td):
@@ -343,6 +377,8 @@ def judge(run, pristine, scn, plan):
             o = run.outcomes[k]
             if o["before"] is None or o["after"] is None or o["actor"] == "setup":
                 continue
+            if o["actor"].startswith("spawn"):
+                continue  # started in one context, closed from another: its own before/after are not comparable
             if o["before"] != o["after"]:
                 lost = sorted(set(o["before"]) - set(o["after"]))
                 gained = sorted(set(o["after"]) - set(o["before"]))
@@ -357,6 +393,16 @@ def judge(run, pristine, scn, plan):
                         "detail": {"call": k, "unit": o["unit"], "obj": o["obj"], "before": o["before"], "after": o["after"], "verdict": o["verdict"]},
                     }
                 )
+        fc = run.foreign_close
+        if fc is not None and fc[2] and fc[0] != fc[1]:
+            # closing a pending coroutine that was started in another context must not touch the closing context's marks
+            violations.append(
+                {
+                    "rule": "C11.R2",
+                    "classifier": "%s:marks-of-closing-context-changed-by-foreign-close:%s" % (engine, "gained" if set(fc[1]) - set(fc[0]) else "lost"),
+                    "detail": {"before_close": fc[0], "after_close": fc[1], "closed": fc[2]},
+                }
+            )
     # R3
     for e in run.fired_excs:
         kind = getattr(e, "verif_kind", "?")
